@@ -32,7 +32,7 @@ MidCases(pool, fails, fn, single) ==
   Concat([f \in 1..Len(fails) |->
     << Mk(fn, single, pool[1] \o fails[f] \o pool[2]), Mk(fn, single, fails[f] \o pool[1]),
        Mk(fn, single, pool[2] \o pool[1] \o fails[f] \o fails[f] \o pool[3]), Mk(fn, single, pool[3] \o fails[f] \o pool[3] \o fails[f]) >>])
-BadSidCh == <<1, 0, 0, 75, 3, 3>> \o Fill(5, 32) \o <<33>> \o Fill(6, 33) \o <<0, 2, 0, 47, 1, 0>>       \* ClientHello, session id of 33 bytes
+BadSidCh == <<1, 0, 0, 74, 3, 3>> \o Fill(5, 32) \o <<33>> \o Fill(6, 33) \o <<0, 2, 0, 47, 1, 0>>       \* ClientHello, session id of 33 bytes
 TlsFails == << EncRecordRaw(22, 771, BadSidCh), EncRecordRaw(23, 771, Fill(1, 16641)),                  \* ... and an oversized record with its whole body
                EncRecordRaw(22, 771, <<99, 0, 0, 0>>), EncRecordRaw(21, 771, <<>>), EncRecordRaw(7, 771, <<1>>), EncRecordRaw(24, 771, <<1, 0, 9, 1>>),
                EncRecordRaw(20, 771, <<2>>) >>
